@@ -130,6 +130,15 @@ def _explicit() -> dict[str, tuple[str, Callable[[Path], Any]]]:
 
         return AnalyticDiscipline({"y": "2*x+z**2", "w": "x*z-1"})
 
+    def analytic4(tmp):
+        # expressions that are not symmetric in their (more than two) symbols: the positional arguments of the
+        # lambdified functions follow the iteration order of a set of symbols
+        from gemseo.disciplines.analytic import AnalyticDiscipline
+
+        d = AnalyticDiscipline({"y": "a - 2*b + c/d", "z": "exp(a)*d - b**2/c", "w": "3*a*c - 5*d"})
+        d.io.input_grammar.defaults = {"a": np.array([1.0]), "b": np.array([2.0]), "c": np.array([3.0]), "d": np.array([4.0])}
+        return d
+
     def array_based(tmp):
         from gemseo.disciplines.array_based_function import ArrayBasedFunctionDiscipline
 
@@ -323,6 +332,7 @@ def _explicit() -> dict[str, tuple[str, Callable[[Path], Any]]]:
 
     rec: dict[str, tuple[str, Callable[[Path], Any]]] = {
         "AnalyticDiscipline": ("AnalyticDiscipline", analytic),
+        "AnalyticDiscipline[4-symbols]": ("AnalyticDiscipline", analytic4),
         "ArrayBasedFunctionDiscipline": ("ArrayBasedFunctionDiscipline", array_based),
         "AutoPyDiscipline": ("AutoPyDiscipline", auto_py),
         "Concatenater": ("Concatenater", concatenater),
